@@ -2,10 +2,12 @@
 
 History property: a rule-based state machine assigns kernels and scales
 (any sign pattern, zeros, flips), applies the kernel and scale constraints in
-any order, or calls finalize_constraints(); whenever both constraints have been
-applied since the last assignment the layer function is judged on the full
-half-integer grid (plus out-of-range points) against the documented claims and
-against the float64 dense-kernel reference.
+any order, runs optimizer steps, or calls finalize_constraints(); whenever both
+constraints have been applied since the last assignment the layer function is
+judged on the full half-integer grid (plus out-of-range points) against the
+documented claims and against the float64 dense-kernel reference.  The
+configuration also varies the documented spellings of `monotonicities` and
+the documented input formats (tensor / list of tensors / extra dimensions).
 """
 import itertools
 
@@ -21,76 +23,267 @@ from vlib.harness import Outcome, TOL_F, TOL_MONO_F, safe_run
 ID = "C07"
 TITLE = "KroneckerFactoredLattice after its constraints gives monotone, bounded outputs"
 RULE = ("A Hypothesis RuleBasedStateMachine builds a KroneckerFactoredLattice "
-        "(lattice_sizes 2-4, dims 1-4, units 1-3, terms 1-4, monotonicity "
-        "subsets incl. none, bounds {none,min,max,both}, clip_inputs on/off) "
-        "and runs a generated history of assign_kernel / assign_scale (signs "
-        "incl. zeros and flips) / assign_bias (unbounded layers) / "
-        "apply_kernel_constraint / apply_scale_constraint / finalize; after "
-        "every step at which both constraints have been applied since the last "
-        "assignment the function is evaluated on the full half-integer grid and "
-        "on out-of-range points. Non-trivial: a history with at least one "
-        "judged state reached after an assignment that violated monotonicity "
-        "or bounds on the grid before the constraints ran; distinct by SHA-1 "
-        "of (config, operation list).")
+        "(lattice_sizes 2-4 with dims 1-4, lattice_sizes 5-6 with dims 1-2, "
+        "lattice_sizes 2 with dims 5-6; units 1-3, terms 1-4; monotonicity "
+        "subsets incl. none, spelled as int list / 'increasing'-'none' "
+        "strings / tuple / mixed / explicit all-zero list / omitted; bounds "
+        "{none,min,max,both} drawn together with the monotonicity mode, incl. "
+        "a bound equal to 0 and a 1e-3 wide range; clip_inputs on/off; input "
+        "given as one tensor, as a list of dims tensors, with an extra "
+        "dimension between batch and units, or both; with units > 1 every "
+        "unit may receive the points in its own order; build() from a "
+        "TensorShape or from the list of shapes; the layer is called eagerly "
+        "or inside a tf.function) and runs a generated history "
+        "of assign_kernel / assign_scale (signs incl. zeros and flips, scales "
+        "1e-6..1e4, or a hand-shaped list of literal values repeated over "
+        "the variable) / assign_bias (unbounded layers) / train_step (SGD or "
+        "Adam on +-mean(y) or a squared loss) / apply_kernel_constraint / "
+        "apply_scale_constraint / finalize; after every step at which both "
+        "constraints have been applied since the last assignment the function "
+        "is evaluated on the full half-integer grid and on out-of-range "
+        "points. Non-trivial: a history with at least one judged state "
+        "reached after an assignment that violated monotonicity or bounds on "
+        "the grid before the constraints ran; distinct by SHA-1 of (config, "
+        "operation list).")
 NT_FLOOR = 0.3
 BUDGET = {"quick": 80, "thorough": 1500}
 STEP_COUNT = {"quick": 10, "thorough": 25}
 TECHNIQUE = ("stateful property-based testing (Hypothesis RuleBasedStateMachine) "
              "with a float64 dense-kernel reference model and grid evaluation")
 LEVEL_TEXT = ("Model-based exploration of update/constraint histories of the "
-              "layer: generated sequences of variable assignments and constraint "
-              "applications in every order; in each clean state the real layer "
-              "is evaluated on all half-integer grid points and compared with "
-              "the documented claims (non-decreasing along increasing inputs, "
-              "inside the bounds, equal to the dense reference).")
+              "layer: generated sequences of variable assignments, optimizer "
+              "steps and constraint applications in every order, over the "
+              "documented spellings of the monotonicities and the documented "
+              "input formats; in each clean state the real layer is evaluated "
+              "on all half-integer grid points and compared with the "
+              "documented claims (non-decreasing along increasing inputs, "
+              "inside the bounds, equal to the dense reference, output of "
+              "the documented shape).")
 LEVEL_NOTE = ("Grid = all points with coordinates in {0, .5, 1, ...}; finer "
               "violations between grid points are impossible for a multilinear "
               "function (it is monotone along an axis iff it is on cell edges). "
               "Tolerances 1e-5 relative (monotone pairs, bounds) and 1e-4 "
-              "(reference equality). Trusted: tf_keras applies variable "
-              "constraints the way the machine does (variable.assign("
-              "constraint(variable))).")
+              "(reference equality); when terms of opposite sign cancel, the "
+              "float32 rounding floor 4*(dims+terms+2)*2^-23*sum_t|scale_t|*"
+              "prod_d max|w| / terms replaces the relative tolerance of the "
+              "monotone-pair and reference clauses if it is larger (class "
+              "'tolerance:float32-rounding-floor-above-1e-5'). After "
+              "finalize_constraints() the allowance for its float32 "
+              "w + (p - w) update is the smaller of 8*dims*ulp32(max|kernel "
+              "before|)*S and a bound computed entry by entry from the "
+              "weights before and after, plus the same bound for the scale; "
+              "the entry-by-entry bound stays in force for a variable until it "
+              "is next assigned or passed through its own constraint. "
+              "States reached through an optimizer step that leaves a weight "
+              "beyond 1e6 or non-finite are not judged. Trusted: tf_keras "
+              "applies variable constraints the way the machine does "
+              "(variable.assign(constraint(variable))).")
 
 
 # ---------------------------------------------------------------- config
+# Spellings of `monotonicities` the layer documents: None, list or tuple of
+# {'none', 'increasing', 0, 1}.  "ints" is the historical spelling (list of
+# ints, argument omitted when nothing is monotone).
+MONO_SPELLS = ["ints", "ints", "strings", "tuple", "mixed", "always-list"]
+# Input formats the layer documents: one tensor (batch, ..., [units,] dims) or
+# a list of dims tensors (batch, ..., [units,] 1).
+XFMTS = ["tensor", "tensor", "list", "extra", "list+extra"]
+
+
+CROSS_MODES = (
+    [("none", "none")] + [("none", "min")] * 2 + [("none", "max")] * 2 +
+    [("none", "both")] * 3 +
+    [(m, b) for m in ("all", "some", "some")
+     for b in ("none", "min", "max", "both")] + [("some", "both")])
+
+
+def spell_monotonicities(mono, spell):
+  """The `monotonicities` argument for a 0/1 vector in the given spelling
+  (None = leave the argument out)."""
+  mono = [int(m) for m in mono]
+  if spell == "strings":
+    return ["increasing" if m else "none" for m in mono]
+  if spell == "tuple":
+    return tuple(mono)
+  if spell == "mixed":
+    return [("increasing" if m else "none") if i % 2 == 0 else m
+            for i, m in enumerate(mono)]
+  if spell == "always-list":
+    return list(mono)
+  return list(mono) if any(mono) else None
+
+
 @st.composite
-def kfl_config(draw, tier="quick"):
-  size = draw(st.integers(2, 4))
-  dims = draw(st.integers(1, 4 if size < 4 else 3))
-  mm = draw(st.sampled_from(["none", "all", "some", "some"]))
+def kfl_config(draw, tier="quick", wide=False):
+  """KroneckerFactoredLattice configuration.  wide=False is the historical
+  domain (other modules import it): lattice_sizes 2-4, dims 1-4.  wide=True
+  (this module's machine, C10) adds lattice_sizes 5-6 (dims <= 2), dims 5-6
+  (lattice_sizes 2), a 1e-3 wide output range, more one-sided bounds, and the
+  keys mono_spell / xfmt / extra_k / unit_shuffle / build_list / call_mode."""
+  shape_kind = draw(st.sampled_from(["std", "std", "std", "long", "deep"])
+                    ) if wide else "std"
+  if shape_kind == "long":
+    size = draw(st.integers(5, 6))
+    dims = draw(st.integers(1, 2))
+  elif shape_kind == "deep":
+    size = 2
+    dims = draw(st.integers(5, 6))
+  else:
+    size = draw(st.integers(2, 4))
+    dims = draw(st.integers(1, 4 if size < 4 else 3))
+  if wide:
+    # monotonicity mode and bound mode are drawn together so that every cross
+    # (in particular no monotonicity with two-sided / one-sided bounds) is
+    # constructed often
+    mm, bm = draw(st.sampled_from(CROSS_MODES))
+  else:
+    mm = draw(st.sampled_from(["none", "all", "some", "some"]))
   mono = [0 if mm == "none" else 1 if mm == "all" else draw(st.integers(0, 1))
           for _ in range(dims)]
-  bm = draw(st.sampled_from(["none", "min", "max", "both", "both"]))
-  if mm == "none" and bm == "none" and draw(st.integers(0, 3)) > 0:
-    bm = draw(st.sampled_from(["min", "max", "both"]))
+  if not wide:
+    bm = draw(st.sampled_from(["none", "min", "max", "both", "both"]))
+    if mm == "none" and bm == "none" and draw(st.integers(0, 3)) > 0:
+      bm = draw(st.sampled_from(["min", "max", "both"]))
   lo = S.f32(draw(st.sampled_from([-10.0, -1.0, 0.0, 0.5, 100.0])))
   width = S.f32(draw(st.sampled_from([0.5, 1.0, 3.0, 1000.0])))
-  return {"size": size, "dims": dims, "units": draw(st.integers(1, 3)),
-          "terms": draw(st.integers(1, 4)), "mono": mono,
-          "omin": lo if bm in ("min", "both") else None,
-          "omax": S.f32(lo + width) if bm in ("max", "both") else None,
-          "clip": draw(st.booleans()), "init_seed": draw(st.integers(0, 999))}
+  if wide and bm == "both" and draw(st.integers(0, 2)) == 0:
+    # a narrow range: the scale clip is 5e-4 (not a power of two)
+    lo = S.f32(draw(st.sampled_from([-1.0, -0.5, 0.0, 0.5])))
+    width = S.f32(1e-3)
+  cfg = {"size": size, "dims": dims, "units": draw(st.integers(1, 3)),
+         "terms": draw(st.integers(1, 4)), "mono": mono,
+         "omin": lo if bm in ("min", "both") else None,
+         "omax": S.f32(lo + width) if bm in ("max", "both") else None,
+         "clip": draw(st.booleans()), "init_seed": draw(st.integers(0, 999))}
+  if wide:
+    cfg["mono_spell"] = draw(st.sampled_from(MONO_SPELLS))
+    cfg["xfmt"] = draw(st.sampled_from(XFMTS))
+    cfg["extra_k"] = draw(st.integers(2, 3))
+    cfg["unit_shuffle"] = draw(st.booleans())
+    cfg["build_list"] = draw(st.booleans())
+    # the layer is called eagerly or inside a tf.function (graph mode)
+    cfg["call_mode"] = draw(st.sampled_from(["eager", "eager", "eager",
+                                             "function"]))
+  return cfg
 
 
 KERNEL_KINDS = ["normal", "normal", "uniform", "ints", "sorted", "antisorted",
                 "constant", "spike", "zeros", "ties"]
+# Hand-shaped weights: a short list of literal float32 values that is repeated
+# cyclically to fill the variable (its shape is only known once the layer is
+# built), so zeros, exact ties, tiny and large entries sit at chosen places.
+_cycle_elem = st.one_of(
+    S.f32_floats(-1e4, 1e4), S.f32_floats(-2, 2),
+    st.sampled_from([0.0, 1.0, -1.0, 0.5, 1e-6, -1e-6, 1e-3, 1e4, -1e4]))
+_cycle_desc = st.fixed_dictionaries({
+    "kind": st.just("cycle"),
+    "values": st.lists(_cycle_elem, min_size=1, max_size=12).map(S.f32)})
 op_assign_kernel = st.fixed_dictionaries({
     "op": st.just("assign_kernel"),
-    "desc": S.array_desc(kinds=KERNEL_KINDS,
-                         scales=[1e-3, 0.3, 1.0, 1.0, 3.0, 30.0, 1e3])})
+    "desc": st.one_of(*([S.array_desc(
+        kinds=KERNEL_KINDS,
+        scales=[1e-6, 1e-3, 0.3, 1.0, 1.0, 3.0, 30.0, 1e3, 1e4])] * 3 +
+                        [_cycle_desc]))})
 op_assign_scale = st.fixed_dictionaries({
     "op": st.just("assign_scale"),
-    "desc": S.array_desc(kinds=["normal", "ints", "ties", "zeros", "uniform"],
-                         scales=[1e-3, 1.0, 1.0, 10.0, 1e3])})
+    "desc": st.one_of(*([S.array_desc(
+        kinds=["normal", "ints", "ties", "zeros", "uniform"],
+        scales=[1e-6, 1e-3, 1.0, 1.0, 10.0, 1e3, 1e4])] * 3 +
+                        [_cycle_desc]))})
 op_train_step = st.fixed_dictionaries({
     "op": st.just("train_step"), "lr": st.sampled_from([0.01, 1.0, 30.0]),
-    "sign": st.sampled_from([-1.0, 1.0]), "seed": st.integers(0, 10**6)})
+    "sign": st.sampled_from([-1.0, 1.0]), "seed": st.integers(0, 10**6),
+    "opt": st.sampled_from(["sgd", "sgd", "adam"]),
+    "loss": st.sampled_from(["mean", "mean", "square"])})
 op_assign_bias = st.fixed_dictionaries({
     "op": st.just("assign_bias"),
     "desc": S.array_desc(kinds=["normal", "ints"], scales=[1.0, 100.0])})
 
 
+def _materialize(desc, n):
+  """float32 vector of n entries from an array descriptor."""
+  if desc["kind"] == "cycle":
+    return np.resize(np.asarray(desc["values"], np.float32), n)
+  return S.materialize(desc, (n, 1))[:, 0]
+
+
+def _desc_label(what, desc):
+  if desc["kind"] == "cycle":
+    return what + ":hand-shaped"
+  sc = desc.get("scale")
+  if sc is not None and (sc <= 1e-6 or sc >= 1e4):
+    return what + ":scale=%g" % sc
+  return None
+
+
 # ---------------------------------------------------------------- model
+class OutputShape(Exception):
+  """The layer returned an output of an undocumented shape."""
+
+
+def build_kfl(layer, cfg):
+  """Builds the layer for the input format of the configuration."""
+  import tensorflow as tf
+  d, u = cfg["dims"], cfg["units"]
+  xfmt = cfg.get("xfmt", "tensor")
+  lead = (None,) + ((cfg.get("extra_k", 2),) if "extra" in xfmt else ())
+  lead = lead + ((u,) if u > 1 else ())
+  if "list" in xfmt and cfg.get("build_list"):
+    layer.build([tf.TensorShape(lead + (1,)) for _ in range(d)])
+  else:
+    layer.build(tf.TensorShape(lead + (d,)))
+
+
+def format_inputs(cfg, pts):
+  """Library input for the (P, dims) points in the configured input format,
+  and a function that turns the layer output back into (P, units).
+
+  units > 1 with unit_shuffle: unit v receives the points in its own order
+  (each unit still sees every point once); 'extra': an additional dimension
+  of extra_k between batch and units (the last row is repeated to fill the
+  batch); 'list': one (..., 1) tensor per input dimension."""
+  import tensorflow as tf
+  xfmt = cfg.get("xfmt", "tensor")
+  u, d, p = cfg["units"], cfg["dims"], len(pts)
+  pts = np.asarray(pts, np.float32)
+  perms = None
+  if u == 1:
+    x = pts
+  elif cfg.get("unit_shuffle"):
+    rs = np.random.RandomState(cfg["init_seed"] * 7919 + p)
+    perms = [rs.permutation(p) for _ in range(u)]
+    x = np.stack([pts[q] for q in perms], axis=1)
+  else:
+    x = np.repeat(pts[:, None, :], u, axis=1)
+  if "extra" in xfmt:
+    k = cfg.get("extra_k", 2)
+    pad = (-p) % k
+    if pad:
+      x = np.concatenate([x, np.repeat(x[-1:], pad, axis=0)], axis=0)
+    x = x.reshape((len(x) // k, k) + x.shape[1:])
+  want = x.shape[:-1] + ((1,) if u == 1 else ())
+  if "list" in xfmt:
+    inp = [tf.constant(x[..., i:i + 1]) for i in range(d)]
+  else:
+    inp = tf.constant(x)
+
+  def restore(y):
+    y = np.asarray(y, np.float64)
+    if y.shape != want:
+      raise OutputShape("layer output has shape %s for input format %s of "
+                        "shape %s; documented %s" % (
+                            y.shape, xfmt, x.shape, want))
+    y = y.reshape(-1, u)[:p]
+    if perms is not None:
+      z = np.empty_like(y)
+      for v, q in enumerate(perms):
+        z[q, v] = y[:, v]
+      y = z
+    return y
+
+  return inp, restore
+
+
 class State(object):
 
   def __init__(self, cfg):
@@ -102,11 +295,16 @@ class State(object):
     kw = dict(lattice_sizes=cfg["size"], units=cfg["units"],
               num_terms=cfg["terms"], output_min=cfg["omin"],
               output_max=cfg["omax"], clip_inputs=cfg["clip"])
-    if any(cfg["mono"]):
-      kw["monotonicities"] = list(cfg["mono"])
+    monotonicities = spell_monotonicities(cfg["mono"],
+                                          cfg.get("mono_spell", "ints"))
+    if monotonicities is not None:
+      kw["monotonicities"] = monotonicities
     self.layer = tfl.layers.KroneckerFactoredLattice(**kw)
-    d, u = cfg["dims"], cfg["units"]
-    self.layer.build(tf.TensorShape((None, d) if u == 1 else (None, u, d)))
+    d = cfg["dims"]
+    self.xfmt = cfg.get("xfmt", "tensor")
+    build_kfl(self.layer, cfg)
+    self.call_mode = cfg.get("call_mode", "eager")
+    self._fn = tf.function(lambda x: self.layer(x), reduce_retracing=True)
     self.dirty_kernel = False
     self.dirty_scale = False
     self.violated_before = False
@@ -120,10 +318,13 @@ class State(object):
     self.outside = (rs.uniform(-2, cfg["size"] + 1, size=(24, d))
                     ).astype(np.float32)
 
+  def format_inputs(self, pts):
+    return format_inputs(self.cfg, pts)
+
   def evaluate(self, pts):
-    u = self.cfg["units"]
-    x = pts if u == 1 else np.repeat(pts[:, None, :], u, axis=1)
-    return self.layer(self.tf.constant(x)).numpy().astype(np.float64)
+    inp, restore = self.format_inputs(pts)
+    y = self._fn(inp) if self.call_mode == "function" else self.layer(inp)
+    return restore(y.numpy())
 
   def grid_measures(self):
     """(monotonicity violation, bound violation, scale) on the grid."""
@@ -148,14 +349,18 @@ def apply_op(state, op, out):
   name = op["op"]
   if name == "assign_kernel":
     shape = tuple(layer.kernel.shape)
-    k = S.materialize(op["desc"], (int(np.prod(shape)), 1)).reshape(shape)
+    k = _materialize(op["desc"], int(np.prod(shape))).reshape(shape)
     layer.kernel.assign(k)
     state.dirty_kernel = state.dirty_scale = True
+    state.fin_ek = None
+    out.label(*[l for l in [_desc_label("kernel", op["desc"])] if l])
   elif name == "assign_scale":
     shape = tuple(layer.scale.shape)
-    s = S.materialize(op["desc"], (int(np.prod(shape)), 1)).reshape(shape)
+    s = _materialize(op["desc"], int(np.prod(shape))).reshape(shape)
     layer.scale.assign(s)
     state.dirty_kernel = state.dirty_scale = True
+    state.fin_es = None
+    out.label(*[l for l in [_desc_label("scale", op["desc"])] if l])
   elif name == "assign_bias":
     # any TRAINABLE variable may take any value during training; the bias of a
     # bounded layer is documented as fixed (non-trainable) and is left alone.
@@ -169,31 +374,50 @@ def apply_op(state, op, out):
     rs = np.random.RandomState(op["seed"])
     x = rs.uniform(-0.5, cfg["size"] - 0.5, size=(8, cfg["dims"])).astype(
         np.float32)
-    if cfg["units"] > 1:
-      x = np.repeat(x[:, None, :], cfg["units"], axis=1)
-    opt = keras.optimizers.SGD(learning_rate=op["lr"])
+    inp, _ = state.format_inputs(x)
+    kind, loss_kind = op.get("opt", "sgd"), op.get("loss", "mean")
+    if kind == "adam":
+      opt = keras.optimizers.Adam(learning_rate=op["lr"])
+    else:
+      opt = keras.optimizers.SGD(learning_rate=op["lr"])
     with tf.GradientTape() as tape:
-      y = layer(tf.constant(x))
-      loss = op["sign"] * tf.reduce_mean(y) + 0.1 * tf.reduce_mean(
-          (y - op["sign"] * -50.0) ** 2) * 0.0
+      y = layer(inp)
+      if loss_kind == "square":
+        loss = tf.reduce_mean((y - op["sign"] * 5.0) ** 2)
+      else:
+        loss = op["sign"] * tf.reduce_mean(y) + 0.1 * tf.reduce_mean(
+            (y - op["sign"] * -50.0) ** 2) * 0.0
     tv = layer.trainable_variables
     grads = tape.gradient(loss, tv)
     opt.apply_gradients([(g, v) for g, v in zip(grads, tv) if g is not None])
     state.dirty_kernel = state.dirty_scale = False
     state.violated_before = True
+    state.fin_ek = state.fin_es = None
+    out.label("train:%s/%s" % (kind, loss_kind))
   elif name == "apply_kernel_constraint":
     if layer.kernel.constraint is not None:
       layer.kernel.assign(layer.kernel.constraint(layer.kernel))
+      state.fin_ek = None
     state.dirty_kernel = False
   elif name == "apply_scale_constraint":
     if layer.scale.constraint is not None:
       layer.scale.assign(layer.scale.constraint(layer.scale))
+      state.fin_es = None
     state.dirty_scale = False
   elif name == "finalize":
-    # finalize_constraints() computes kernel + (projected - kernel) in float32:
-    # its rounding error scales with the kernel it started from.
+    # finalize_constraints() computes kernel + (projected - kernel) and
+    # scale + (clipped - scale) in float32: the rounding error of these two
+    # operations is bounded from the weights before and after (see
+    # _finalize_slack).
     state.finalize_kmax = float(np.max(np.abs(layer.kernel.numpy())))
+    k0, s0 = layer.kernel.numpy().copy(), layer.scale.numpy().copy()
     layer.finalize_constraints()
+    # the rounding of each variable stays in it until the variable is next
+    # assigned or passed through its own constraint
+    shp = (cfg["size"], cfg["units"], cfg["dims"], cfg["terms"])
+    state.fin_ek = _assign_add_error(k0, layer.kernel.numpy()).reshape(
+        shp).max(axis=0)                                         # (u, d, t)
+    state.fin_es = _assign_add_error(s0, layer.scale.numpy())   # (u, t)
     state.dirty_kernel = state.dirty_scale = False
   else:
     raise ValueError(name)
@@ -219,14 +443,83 @@ def apply_op(state, op, out):
   judge_state(state, out, after=name)
 
 
+def _assign_add_error(a0, a1):
+  """Elementwise bound on |a1 - p| where a1 = fl32(a0 + fl32(p - a0)) is what
+  variable.assign_add(p - variable) stores instead of the float32 value p:
+  one rounding of the difference (at most ulp32(|p - a0|)) and one of the sum
+  (at most ulp32(|a1|)); computed from the values before and after only."""
+  a0 = np.asarray(a0, np.float32)
+  a1 = np.asarray(a1, np.float32)
+  sp1 = np.spacing(np.abs(a1)).astype(np.float64)
+  diff = (np.abs(a1.astype(np.float64) - a0.astype(np.float64)) + sp1).astype(
+      np.float32)
+  return np.spacing(diff).astype(np.float64) + sp1
+
+
 def _finalize_slack(state, after, sc):
-  """Extra absolute tolerance after finalize: dims factors, each with a
-  relative error of a few ulp32(|kernel before|) on weights of size <= 1."""
-  if after != "finalize":
+  """Extra absolute tolerance for weights that still carry the float32
+  rounding of finalize_constraints().
+
+  finalize stores fl32(w + fl32(p - w)) instead of the projected p, for the
+  kernel and for the scale; the error stays in a variable until it is next
+  assigned or passed through its own constraint.  With e = _assign_add_error
+  per entry (0 for a variable that has been rewritten since), M[u,d,t] >=
+  max_i |p| and |every 1-d factor PLF(x; w)| <= max_i |w|, the function moves
+  by at most
+      sum_t [(|scale|+e_s) * (prod_d (M+e) - prod_d M) + e_s * prod_d (M+e)] / T
+  per unit, and a monotone pair by at most twice that.  Directly after
+  finalize the historical bound 8 * dims * ulp32(max|kernel before|) * sc
+  (plus the scale term, which it did not have) caps it: the smaller of the two
+  is used."""
+  cfg, layer = state.cfg, state.layer
+  ek = getattr(state, "fin_ek", None)
+  es = getattr(state, "fin_es", None)
+  if ek is None and es is None:
     return 0.0
-  rel = 8.0 * state.cfg["dims"] * float(np.spacing(np.float32(
-      getattr(state, "finalize_kmax", 1.0))))
-  return rel * sc
+  shp = (cfg["size"], cfg["units"], cfg["dims"], cfg["terms"])
+  k1 = layer.kernel.numpy().astype(np.float64)
+  s1 = layer.scale.numpy().astype(np.float64)
+  if not (np.all(np.isfinite(k1)) and np.all(np.isfinite(s1)) and
+          (ek is None or np.all(np.isfinite(ek))) and
+          (es is None or np.all(np.isfinite(es)))):
+    return 0.0                       # non-finite states fail the finite clause
+  ek = np.zeros(shp[1:]) if ek is None else ek
+  es = np.zeros((cfg["units"], cfg["terms"])) if es is None else es
+  m = np.abs(k1).reshape(shp).max(axis=0) + ek                  # (u, d, t)
+  hi = np.prod(m + ek, axis=1)                                  # (u, t)
+  lo = np.prod(m, axis=1)
+  scale_part = 2.0 * float(np.max(np.sum(es * hi, axis=1))) / cfg["terms"]
+  new = 2.0 * float(np.max(np.sum(
+      (np.abs(s1) + es) * (hi - lo) + es * hi, axis=1))) / cfg["terms"]
+  if after != "finalize":
+    state.finalize_slack_info = {"carried-over": new}
+    return new
+  old = 8.0 * cfg["dims"] * float(np.spacing(np.float32(
+      getattr(state, "finalize_kmax", 1.0)))) * sc
+  state.finalize_slack_info = {"exact": new, "historical": old + scale_part}
+  return min(new, old + scale_part)
+
+
+def _rounding_floor(state):
+  """Per unit: float32 rounding floor of the layer function.
+
+  The layer sums num_terms products scale_t * prod_d PLF_d in float32; when
+  terms of opposite sign cancel, the rounding error is relative to the size
+  of the TERMS, not of the result.  Forward error analysis (<= 4 roundings
+  per 1-d factor, dims - 1 multiplications, num_terms additions, bias) gives
+  |error| <= 2 * (dims + num_terms + 2) * eps32 * sum_t |scale_t| *
+  prod_d max_i |w[i, d, t]| / num_terms per evaluation (eps32 = 2**-23), twice
+  that for a difference of two evaluations.  The relative tolerances
+  (1e-5 * S for monotone pairs, 1e-4 * S for the reference) are used unless
+  this floor is larger (counted in the class
+  'tolerance:float32-rounding-floor-above-1e-5')."""
+  cfg, layer = state.cfg, state.layer
+  shp = (cfg["size"], cfg["units"], cfg["dims"], cfg["terms"])
+  m = np.abs(layer.kernel.numpy().astype(np.float64)).reshape(shp).max(axis=0)
+  termsum = np.sum(np.abs(layer.scale.numpy().astype(np.float64)) *
+                   np.prod(m, axis=1), axis=1) / cfg["terms"]       # (units,)
+  eps32 = float(np.finfo(np.float32).eps)
+  return 4.0 * (cfg["dims"] + cfg["terms"] + 2) * eps32 * termsum
 
 
 def judge_state(state, out, after):
@@ -243,7 +536,11 @@ def judge_state(state, out, after):
     out.violate("non-finite output after %s" % after, kind="finite", **sig)
     return
   slack = _finalize_slack(state, after, sc)
-  if mv > TOL_MONO_F * sc + slack:
+  cond_u = _rounding_floor(state)
+  cond = float(np.max(cond_u))
+  if cond > TOL_MONO_F * sc:
+    out.label("tolerance:float32-rounding-floor-above-1e-5")
+  if mv > max(TOL_MONO_F * sc, cond) + slack:
     out.violate("output decreases by %.3g along an increasing input after %s" %
                 (mv, after), kind="monotonicity", **sig)
   if bv > 1e-5 * max(1.0, abs(cfg["omin"] or 0), abs(cfg["omax"] or 0)) + slack:
@@ -262,7 +559,7 @@ def judge_state(state, out, after):
     out.checks += 1
     lim = TOL_F * max(1.0, float(np.max(np.abs(ref))),
                       float(np.max(np.abs(dense[:, u]))))
-    if np.max(np.abs(ysub[:, u] - ref)) > lim:
+    if np.max(np.abs(ysub[:, u] - ref)) > max(lim, float(cond_u[u])):
       out.violate("layer output differs from the dense-kernel reference by "
                   "%.3g after %s" % (np.max(np.abs(ysub[:, u] - ref)), after),
                   kind="reference", **sig)
@@ -285,7 +582,7 @@ def judge_state(state, out, after):
         x2[:, dd] += 0.75
         y2 = state.evaluate(x2)
         sc2 = max(1.0, float(np.max(np.abs(yo))), float(np.max(np.abs(y2))))
-        if np.max(yo - y2) > TOL_MONO_F * sc2 + slack:
+        if np.max(yo - y2) > max(TOL_MONO_F * sc2, cond) + slack:
           out.violate("output decreases along increasing input %d for "
                       "out-of-range points after %s" % (dd, after),
                       kind="monotonicity-outside", **sig)
@@ -296,17 +593,37 @@ def play(cfg, ops):
   """Replays a history; returns the Outcome."""
   out = Outcome()
   state = State(cfg)
-  out.label("mono:%s" % ("none" if not any(cfg["mono"]) else "some"),
-            "bounds:%s" % ("none" if cfg["omin"] is None and cfg["omax"] is None
-                           else "min" if cfg["omax"] is None else
-                           "max" if cfg["omin"] is None else "both"),
+  bl = ("none" if cfg["omin"] is None and cfg["omax"] is None else
+        "min" if cfg["omax"] is None else "max" if cfg["omin"] is None else
+        "both")
+  ml = "none" if not any(cfg["mono"]) else "some"
+  out.label("mono:%s" % ml, "bounds:%s" % bl,
             "units:%d" % cfg["units"], "terms:%d" % cfg["terms"],
-            "dims:%d" % cfg["dims"], "clip:%s" % cfg["clip"])
-  judge_state(state, out, after="build")      # freshly built layer
-  for op in ops:
-    apply_op(state, op, out)
+            "dims:%d" % cfg["dims"], "clip:%s" % cfg["clip"],
+            "size:%d" % cfg["size"], "cross:bounds=%s,mono=%s" % (bl, ml),
+            "mono-spelling:" + cfg.get("mono_spell", "ints"),
+            "input:" + state.xfmt, "call:" + state.call_mode)
+  if bl in ("min", "max") and cfg["units"] > 1 and cfg["terms"] > 1:
+    out.label("cross:one-sided,units>1,terms>1,mono=%s" % ml)
+  if cfg["units"] > 1 and cfg.get("unit_shuffle"):
+    out.label("input:units-get-different-points")
+  if "list" in state.xfmt and cfg.get("build_list"):
+    out.label("input:built-from-list-shape")
+  if bl == "both" and cfg["omax"] - cfg["omin"] < 0.01:
+    out.label("bounds:width=1e-3")
+  if 0.0 in (cfg["omin"], cfg["omax"]):
+    out.label("bounds:a-bound-is-0")
+  sig = dict(mono=bool(any(cfg["mono"])), bounds=bl)
+  try:
+    judge_state(state, out, after="build")      # freshly built layer
+    for op in ops:
+      apply_op(state, op, out)
+  except OutputShape as e:
+    out.violate(str(e), kind="output-shape", **sig)
   out.nontrivial = state.judged_after_violation > 0
   out.info["judged_states"] = state.judged
+  if getattr(state, "finalize_slack_info", None):
+    out.info["finalize_slack(last)"] = state.finalize_slack_info
   return out
 
 
@@ -326,7 +643,7 @@ def machine(tier, sink):
       self.cfg = None
       self.ops = []
 
-    @initialize(cfg=kfl_config(tier))
+    @initialize(cfg=kfl_config(tier, wide=True))
     def build(self, cfg):
       self.cfg = cfg
 
